@@ -52,6 +52,9 @@ func (o *Oblig) renderV(forCVC5 bool, mbqi bool) string {
 		if it.kind == itOblig {
 			continue
 		}
+		if it.group != "" && it.group != groupOf(o.Tag) {
+			continue
+		}
 		sb.WriteString(it.text + "\n")
 	}
 	if o.Cover {
@@ -138,7 +141,21 @@ func discharge(o *Oblig, dir string, idx int, tier string, seed int) {
 	o.Result = res
 	o.RawOut = out
 	if o.Cover {
-		// only "unsat" is bad for cover queries
+		// only "unsat" is bad for cover queries; the contract's hypotheses (cover:requires) are also
+		// checked with model-based instantiation, which finds inconsistent axioms that E-matching misses
+		if res != "unsat" && o.Name == "cover:requires" {
+			mfile := base + ".mbqi.smt2"
+			os.WriteFile(mfile, []byte(o.renderV(false, true)), 0o644)
+			ct := 5
+			if tier == "thorough" {
+				ct = 30
+			}
+			rm, outm, dtm := runSolver(solvers[0], mfile, ct, seed)
+			o.TimeS += dtm
+			if rm == "unsat" {
+				o.Result, o.Solver, o.RawOut = rm, solvers[0].name+"(mbqi)", outm
+			}
+		}
 		return
 	}
 	if res == want {
@@ -161,6 +178,20 @@ func discharge(o *Oblig, dir string, idx int, tier string, seed int) {
 	}
 	if quickFail[stableName(o)] && tier != "thorough" {
 		return
+	}
+	// E-matching is sensitive to term ordering: a quick "unknown" is retried with other seeds
+	if res == "unknown" && dt < 5 {
+		for _, sd := range []int{seed + 1, seed + 2, seed + 3, seed + 4} {
+			rs, outs, dts := runSolver(solvers[0], file, timeout, sd)
+			o.TimeS += dts
+			if rs == "unsat" {
+				o.Result, o.Solver, o.RawOut = rs, fmt.Sprintf("%s(seed %d)", solvers[0].name, sd), outs
+				return
+			}
+			if dts >= 5 {
+				break
+			}
+		}
 	}
 	// unknown / timeout: E-matching was not enough; try z3 with model-based quantifier instantiation
 	mfile := base + ".mbqi.smt2"
